@@ -15,8 +15,8 @@ def both(quick_scale=1.0):
 ASAN_ENV = {"ASAN_OPTIONS": "detect_leaks=0:halt_on_error=1:abort_on_error=0:exitcode=23"}
 
 
-def asan(scale):
-    return rs("asan", "asan", scale, env=ASAN_ENV)
+def asan(scale, args=None):
+    return rs("asan", "asan", scale, env=ASAN_ENV, args=args or [])
 
 
 def valgrind(scale):
@@ -27,48 +27,72 @@ def valgrind(scale):
 
 PROPERTIES = {
     "C01": {
-        "quick": [rs("checked", "checked", 1.0)],
+        "quick": [rs("checked", "checked", 5.0)],
         "thorough": [rs("checked", "checked"), rs("release", "release"), asan(0.05)],
     },
     "C02": {
-        "quick": [rs("checked", "checked")],
+        "quick": [rs("checked", "checked", 8.0)],
         "thorough": [rs("checked", "checked"), rs("release", "release", 0.3)],
     },
     "C03": {
-        "quick": [rs("checked", "checked")],
+        "quick": [rs("checked", "checked", 4.0)],
         "thorough": [rs("checked", "checked"), rs("release", "release", 0.5), asan(0.1), valgrind(0.002)],
     },
     "C04": {
-        "quick": [rs("checked", "checked")],
+        "quick": [rs("checked", "checked", 5.0)],
         "thorough": [rs("checked", "checked"), rs("release", "release", 0.3), asan(0.1)],
     },
     "C05": {
-        "quick": [rs("checked", "checked")],
+        "quick": [rs("checked", "checked", 3.0)],
         "thorough": [rs("checked", "checked"), rs("release", "release", 0.5), asan(0.1)],
     },
     "C06": {
-        "quick": both(),
+        "quick": both(8.0),
         "thorough": both(),
     },
     "C07": {
-        "quick": both(),
+        "quick": both(6.0),
         "thorough": both(),
     },
+    "C08": {
+        "quick": [rs("checked", "checked")],
+        "thorough": [rs("checked", "checked"), rs("release", "release", 0.5), asan(0.05, ["--stage", "really-works"])],
+    },
+    "C09": {
+        "quick": [rs("checked", "checked", 2.0)],
+        "thorough": [rs("checked", "checked"), rs("release", "release", 0.3)],
+    },
     "C10": {
-        "quick": both(),
+        "quick": both(8.0),
         "thorough": both(),
     },
     "C11": {
-        "quick": [rs("checked", "checked")],
+        "quick": [rs("checked", "checked", 3.0)],
         "thorough": [rs("checked", "checked"), rs("release", "release", 0.3)],
     },
     "C12": {
-        "quick": both(),
+        "quick": both(1.5),
         "thorough": both(),
     },
     "C13": {
-        "quick": [rs("checked", "checked")],
+        "quick": [rs("checked", "checked", 4.0)],
         "thorough": [rs("checked", "checked"), rs("release", "release", 0.3)],
+    },
+    "C14": {
+        "quick": [rs("checked", "checked", 10.0)],
+        "thorough": [rs("checked", "checked"), rs("release", "release")],
+    },
+    "C15": {
+        "quick": [rs("release", "release", 4.0)],
+        "thorough": [rs("release", "release"), rs("checked", "checked", 0.1)],
+    },
+    "C16": {
+        "quick": [rs("release", "release", 6.0)],
+        "thorough": [rs("release", "release"), rs("checked", "checked", 0.3)],
+    },
+    "C17": {
+        "quick": [rs("release", "release", 8.0)],
+        "thorough": [rs("release", "release"), rs("checked", "checked", 0.3)],
     },
 }
 
@@ -104,6 +128,35 @@ RULES = {
     "C12": "case = 1-50 consecutive rounds on one object; after each encode/decode every accessor is probed with "
            "in-range, boundary, 2^32, 2^63, usize::MAX and wrap-around indexes and compared with the accessor model; "
            "evaluations = rounds observed",
+    "C08": "stage grid enumerates ALL (k, r) in 0..=65537 squared against five supports() predicates (exhaustive); "
+           "hostile-scalars adds values up to usize::MAX; constructors compares new/reset/validate with "
+           "supports && size even && != 0 on the boundary band; really-works round-trips every staircase corner and its "
+           "inside neighbours (maximum loss + a random sufficient set). distinct_nontrivial counts boundary points of "
+           "the grid (last supported / first unsupported per row and predicate) plus distinct constructor and corner cases",
+    "C09": "rule-grid = every (k, r) of a square (96x96 quick, 320x320 thorough) at 2-byte shards: default-rate encoder "
+           "vs the dedicated encoder named by the independently written rule, and cross decoding; rule-sampled = larger "
+           "configurations; reset-across-rule = one default codec reset back and forth across the rule; api-layers = "
+           "wrapper / one-shot / every engine. non-trivial = discriminating configuration (both rates supported and "
+           "they produce different bytes) or a history with at least one rate switch",
+    "C14": "case = one primitive call (or one ReedSolomonEncoder/Decoder round trip) repeated under all four reported "
+           "subsets of {avx2, ssse3}; the (ISA, primitive) counter delta of hook H2 is compared with the specification "
+           "(exactly one hit on the best reported ISA for a direct call; nothing outside the best ISA and every used "
+           "primitive on it for a codec round); results must agree across subsets",
+    "C15": "tables: every entry of exp, log, skew, log_walsh, mul16, mul128 against its definition; mul: all 65536 "
+           "symbols for a set of multipliers (quick 1024 incl. 0, 1, 65534, 65535; thorough all 65536) per engine; "
+           "fft/ifft against direct polynomial evaluation in the LCH basis at chunk-aligned offsets (all points for "
+           "size <= 512, sampled above) plus fft(ifft(v)) = v; eval_poly against the locator sum (all x for <= 64 "
+           "marks, sampled otherwise) and across truncated sizes. evaluations = entries / symbols / points compared",
+    "C16": "case = one schedule in a fresh process: 2-16 threads released by a barrier with 0-2 ms stagger, each running "
+           "a role that first-touches a different subset of the lazy tables (incl. objects handed to another thread "
+           "mid-round); digests compared with a sequential reference; H3 event log checked for exactly-once, "
+           "end-before-use and dependency order; evaluations = role executions compared; the evidence lists the "
+           "distinct initialisation interleavings observed",
+    "C17": "case = history (new, rounds, resets, hand-over of the working space to another rate/engine) executed at "
+           "shard sizes S and 8S under a counting allocator; rounds and steps that need no more working space than is "
+           "held (need calibrated from the crate's own fresh constructions) must not allocate shard-proportional "
+           "memory; results of consecutive rounds of one configuration must live at the same address; evaluations = "
+           "steps measured; non-trivial = history with a non-growing step and more than one round",
     "C13": "case = (config, rate, api, size, two data sets, scalar): additivity, zero and homogeneity are checked; "
            "evaluations = relations checked",
 }
